@@ -318,18 +318,38 @@ func c16PartB(t *zsim.Tape, cfg *hlib.Config) *hlib.Outcome {
 	if playground {
 		sc.Handler = "ZnPlaygroundHandler"
 	}
+	variant := t.Draw(5)
 	mkBody := func(i int) string {
 		if playground {
-			src := fmt.Sprintf("令甲 = %d\n令乙 = 甲 * 2\n如何名？\n\t输出“请求%d”\n\n输出以（名）（拼接：“·”、“%d”）", i, i, i*2)
-			b, _ := json.Marshal(map[string]string{"SourceCode": src, "VarInput": ""})
+			var src, vin string
+			switch variant {
+			case 0:
+				src = fmt.Sprintf("令甲 = %d\n令乙 = 甲 * 2\n如何名？\n\t输出“请求%d”\n\n输出以（名）（拼接：“·”、“%d”）", i, i, i*2)
+			case 1: // input variables evaluated by ExecVarInputText
+				src, vin = "输入甲\n输出甲 * 3", fmt.Sprintf("甲 = %d", i)
+			case 4: // the predefined random function (its value must not influence the response)
+				src = fmt.Sprintf("令随 = （取随机数）\n令又 = （取随机数）\n输出“r%d”", i)
+			case 2: // an exception caught inside the request
+				src = fmt.Sprintf("如何抛？\n\t抛出异常：“请求%d的异常”！\n\n（抛）\n输出“未到”\n\n拦截异常：\n\t输出其内容", i)
+			default: // a library import and a predefined value used in place
+				src = fmt.Sprintf("导入《@JSON》\n\n令数 = 以数值（加：%d）\n输出（生成JSON：【“n” = 数，“id” = “r%d”】）", i, i)
+			}
+			b, _ := json.Marshal(map[string]string{"SourceCode": src, "VarInput": vin})
 			return string(b)
 		}
 		return fmt.Sprintf("payload-%d", i)
 	}
+	entries := []string{
+		"输入当前请求\n令体 = 当前请求 之 内容\n如何回声？\n\t输入文\n\t输出以“回声：”（拼接：文）\n\n输出（回声：体）\n",
+		"导入“工具”\n输入当前请求\n输出（加工：当前请求 之 内容）\n",
+		"输入当前请求\n输出【“体” = 当前请求 之 内容，“方法” = 当前请求 之 方法，“路径” = 当前请求 之 路径】\n",
+	}
+	entry := entries[t.Draw(len(entries))]
 	w := zsim.NewWorld(t)
 	w.TraceCap = 3000
 	d := zsim.NewDisk(w)
-	d.Put("/srv/entry.zn", []byte("输入当前请求\n令体 = 当前请求 之 内容\n如何回声？\n\t输入文\n\t输出以“回声：”（拼接：文）\n\n输出（回声：体）\n"))
+	d.Put("/srv/entry.zn", []byte(entry))
+	d.Put("/srv/工具.zn", []byte("如何加工？\n\t输入文\n\t令前 = “工具：”\n\t输出以前（拼接：文）\n"))
 	mkHandler := func() http.Handler {
 		in := newInterp(probeLib())
 		if playground {
@@ -371,7 +391,7 @@ func c16PartB(t *zsim.Tape, cfg *hlib.Config) *hlib.Outcome {
 	res := w.Run(1<<40, 400000, nil)
 	races := zsim.TrackEnd(w)
 	out.Trace = w.Trace()
-	out.Keys = []string{fmt.Sprintf("B|%s|n=%d|il:%x", sc.Handler, n, w.Interleaving())}
+	out.Keys = []string{fmt.Sprintf("B|%s|v%d|n=%d|il:%x", sc.Handler, variant, n, w.Interleaving())}
 	out.Note["partB-steps"] = w.Steps()
 	if res.Reason == "steps" {
 		out.Note["partB-step-cap"]++
